@@ -70,15 +70,24 @@ static void shape_witness(int n) {
     if (n >= 1 && (lit_of_arg[0] >> 1) == (lit_of_term >> 1)) { VWITNESS("argument-shares-definition-variable"); }
 }
 
+// and/or: the arity is made concrete per branch (a symbolic Pterm size makes vec::capacity(size + 1) a symbolic-size realloc)
+template<int N> static void run_n(Tseitin * ts, bool is_and) { pt_words[0] = (uint32_t)N << 6; if (is_and) ts->cnfizeAnd(PTRef{TERM}); else ts->cnfizeOr(PTRef{TERM}); }
+static void run_andor(Tseitin * ts, bool is_and, int n) {
+    switch (n) { case 0: run_n<0>(ts, is_and); break; case 1: run_n<1>(ts, is_and); break; case 2: run_n<2>(ts, is_and); break; case 3: run_n<3>(ts, is_and); break;
+#if MAXAR >= 5
+    case 4: run_n<4>(ts, is_and); break; case 5: run_n<5>(ts, is_and); break;
+#endif
+    default: run_n<MAXAR>(ts, is_and); }
+}
 extern "C" void h_and() {
     int n; Tseitin * ts = setup(0, MAXAR, n);
-    ts->cnfizeAnd(PTRef{TERM});
+    run_andor(ts, true, n);
     bool e = true; for (int i = 0; i < n; i++) e = e && A(i);
     verdict(e, n + 1); shape_witness(n); if (n == MAXAR) { VWITNESS("max-arity"); }
 }
 extern "C" void h_or() {
     int n; Tseitin * ts = setup(0, MAXAR, n);
-    ts->cnfizeOr(PTRef{TERM});
+    run_andor(ts, false, n);
     bool e = false; for (int i = 0; i < n; i++) e = e || A(i);
     verdict(e, n + 1); shape_witness(n); if (n == MAXAR) { VWITNESS("max-arity"); }
 }
